@@ -41,6 +41,10 @@ type pppoeSys struct {
 	creates int
 	maxNew  int
 	newest  map[string]uint16 // MAC name -> id of the session created last for it
+	// presetAfter/presetTo: after the presetAfter-th CreateSession the id counter is set to presetTo
+	// (add-only seam), so that low ids handed out before are still alive when the counter wraps.
+	presetAfter int
+	presetTo    uint16
 	viols   []explore.Viol
 }
 
@@ -50,6 +54,13 @@ func newPppoeSys(startID uint16, maxNew int) *pppoeSys {
 		m.VerifC20SetNextID(startID)
 	}
 	return &pppoeSys{m: m, live: map[uint16]*pref{}, maxNew: maxNew, newest: map[string]uint16{}}
+}
+
+// newPppoeWrapSys: ids 1..after are handed out normally, then the counter jumps to `to`.
+func newPppoeWrapSys(after int, to uint16, maxNew int) *pppoeSys {
+	s := newPppoeSys(1, maxNew)
+	s.presetAfter, s.presetTo = after, to
+	return s
 }
 
 func (s *pppoeSys) ids() []int {
@@ -94,6 +105,9 @@ func (s *pppoeSys) Apply(op string) string {
 		}
 		s.live[sess.ID] = &pref{mac: args[0], last: time.Now(), sess: sess}
 		s.newest[args[0]] = sess.ID
+		if s.presetAfter > 0 && s.creates == s.presetAfter {
+			s.m.VerifC20SetNextID(s.presetTo)
+		}
 		return fmt.Sprint(sess.ID)
 	case "Remove":
 		id, _ := strconv.Atoi(args[0])
